@@ -8,7 +8,7 @@ PROP = "C13"
 GEN = []
 VO = ["Properties/C13.vo", "Extract/D_Hash.vo", "Extract/O_C13.vo"]
 MODULE = "Properties.C13"
-THEOREMS = ["c13_windows", "c13_evictions", "c13_never_failed", "c13_no_bypass", "c13_retry_window", "c13_not_evicted_by_one", "c13_eviction_clean", "c13_eviction_contact"]
+THEOREMS = ["c13_windows", "c13_evictions", "c13_never_failed", "c13_escapes", "c13_no_bypass", "c13_retry_window", "c13_not_evicted_by_one", "c13_eviction_clean", "c13_eviction_contact"]
 DRIVER = "D_Hash"
 ORACLE = "O_C13"
 TECHNIQUE = ("Coq proof on a hand-written Gallina model of HashClient: the probing bounds for every history of key-addressed calls "
@@ -23,11 +23,13 @@ LEVEL_TEXT = ("c13_windows: for every placement function that returns nodes in r
               "retry_timeout window and at most retry_attempts+2 in any dead_timeout window. c13_evictions: in every such history each "
               "eviction of a server (retries configured) came after at least two failing contacts of it in a row. c13_never_failed: "
               "in every such history a server without a failing contact has no failure record, is not evicted and is still in "
-              "rotation (so, by c13_no_bypass, it is contacted by every call placed on it). Proved for every state: c13_no_bypass, "
+              "rotation (so, by c13_no_bypass, it is contacted by every call placed on it). c13_escapes: in every such history with "
+              "valid keys every call returns a value or - only without ignore_exc - raises an OSError-class error or MemcacheError "
+              "(all servers down): never a KeyError/ValueError of the failover tables. Proved for every state: c13_no_bypass, "
               "c13_retry_window, c13_not_evicted_by_one, c13_eviction_clean (no KeyError/ValueError, only the evicted server "
-              "changes), c13_eviction_contact. PARTIAL: rerouting, recovery within two "
-              "dead_timeout periods and the escape classes over whole histories are checked by blip episodes and random long "
-              "histories on the real class (same oracle), not proved.")
+              "changes), c13_eviction_contact. PARTIAL: recovery of the original placement within two "
+              "dead_timeout periods is checked by blip episodes and random long histories on the real class (with the same "
+              "oracle and clauses), not proved.")
 LEVEL_NOTE = ("Trusted: Coq kernel; hand model's correspondence with hash.py (random histories of key-addressed calls, clock "
               "advances and failing/recovering servers: results, contact log, hasher nodes, failure/dead tables compared). "
               "'Failing' means raising an OSError-family error (the only errors the mechanism counts). No axioms.")
